@@ -124,7 +124,7 @@ class World:
             packet = zt.ZigbeePacket(
                 src=zt.AddrModeAddress(addr_mode=zt.AddrMode.NWK, address=zt.NWK(0)), src_ep=1, dst=addr, dst_ep=1,
                 source_route=[zt.NWK(0x0001)] if ("r" in steps or (kind == "u" and self.route.get(r))) else None,
-                extended_timeout=ext, tsn=r & 0xFF, profile_id=260, cluster_id=6,
+                extended_timeout=ext, tsn=dst & 0xFF, profile_id=260, cluster_id=6,
                 data=zt.SerializableBytes(bytes([r])), radius=3, non_member_radius=1)
             self.kind = getattr(self, "kind", {})
             self.kind[r] = kind
@@ -310,6 +310,9 @@ def oracle(w, mev, consts):
             info[cmdlog[-1][0]]["t_accept"] = now   # the awaited command is the last one issued
         if m == "D=busy" and cmdlog and cmdlog[-1][1] == "s":
             info[cmdlog[-1][0]].setdefault("t_busy", []).append(now)
+            info[cmdlog[-1][0]]["last_enqueue"] = "busy"
+        if m in ("D=ok", "D=refused") and cmdlog and cmdlog[-1][1] == "s":
+            info[cmdlog[-1][0]]["last_enqueue"] = m[2:]
         for e in ents:
             if e.startswith("D") and ":!" in e:
                 return f"send_packet ended with an unexpected exception: {e}"
@@ -321,6 +324,10 @@ def oracle(w, mev, consts):
                 cmdlog.append((int(r), stp, now))
                 if stp == "s":
                     info[int(r)]["t_send"].append(now)
+                    for q, iq in info.items():
+                        if q != int(r) and iq["done"] is None and iq["dst"] == info[int(r)]["dst"] and w.tag_of.get(q) is not None and w.tag_of.get(q) == w.tag_of.get(int(r)):
+                            return (f"requests {q} and {r} are in flight to the same destination {iq['dst']} with the same message tag {w.tag_of.get(q)}: "
+                                    f"a delivery confirmation can no longer be attributed to its own request")
         if m.startswith("F="):
             _, dst, tag, ok = m.split("=")
             for r, i in info.items():
@@ -344,6 +351,9 @@ def oracle(w, mev, consts):
                 if res == "timeout":
                     if "t_accept" not in i or abs(now - (i["t_accept"] + aps_timeout)) > 1e-6:
                         return f"unicast {r} timed out at {now}, expected {aps_timeout}s after the NCP accepted it"
+                if res in ("refused", "failed") and i.get("last_enqueue") == "busy" and len(i.get("t_busy", [])) < len(delays) and i["confirmed"] is None:
+                    return (f"request {r} raised a delivery error ({res}) right after the NCP answered its enqueue attempt {len(i['t_busy'])} with a busy status: "
+                            f"a busy NCP is retried {len(delays)} times with waits {delays} before the request is given up")
                 if res == "busy":
                     tb = i.get("t_busy", [])
                     tcmd = [tt for rr, stp, tt in cmdlog if rr == r]
@@ -436,6 +446,14 @@ def scripts(ctx):
                         sc += ["F=1=dst=1", "T"]
                     elif conf == "dup":
                         sc += ["F=1=own=1", "F=1=own=1"]
+                out.append(sc)
+    # two (three) unicasts in flight to the SAME destination, carrying the same APS counter (a reply that echoes the peer's
+    # counter while a request with that counter is still waiting): each is completed by its own confirmation only
+    for n in (2, 3):
+        for confs in itertools.product("10", repeat=n):
+            for order in itertools.permutations(range(1, n + 1)):
+                sc = [f"S={r}=4660=u=s=0" for r in range(1, n + 1)] + ["D=ok"] * n
+                sc += [f"F={r}=own={confs[r - 1]}" for r in order]
                 out.append(sc)
     # concurrent requests
     for _ in range(ctx.n(600, 8000)):
@@ -564,7 +582,7 @@ def run(ctx):
     ctx.cov["distinct_nontrivial"] = nontriv
     ctx.cov["rule"] = ("single requests: six packet kinds (unicast plain / with source route / with extended timeout / both, multicast, broadcast) x all enqueue-status scripts over {accepted, busy, refused}^3 x confirmation behaviour "
                        "{own success, own failure, none, foreign tag, foreign destination, duplicate, before the enqueue reply}; random scripts with 2..3 concurrent requests, cancellations, command failures; "
-                       "handlers v4, v8, v9, v14 (all 11 thorough); non-trivial = two or more requests or a busy/refused/timeout/cancel path")
+                       "two and three plain unicasts in flight to one destination with the same APS counter x every confirmation outcome and order; handlers v4, v8, v9, v14 (all 11 thorough); non-trivial = two or more requests or a busy/refused/timeout/cancel path")
     ctx.exhaustive = True
 
 
